@@ -202,6 +202,16 @@ def gen_bound_decl(rng):
         flags.append(skipped)
         return "%s%s: %s" % ("#[darling(%s)] " % ", ".join(opts) if opts else "", name, t)
 
+    if trait in ("FromMeta", "FromDeriveInput", "FromAttributes") and rng.random() < 0.2:
+        # a newtype receiver delegates to the SAME trait of its only field, which is parsed whatever its options say
+        g = Gen(rng, declared, [], False)
+        t = g.ty(rng.choice([0, 0, 1, 2]))
+        planted.update(g.used_tp)
+        flags.append(False)
+        opt = rng.choice(["", "", "#[darling(skip)] "])
+        src = "struct R%s(%s%s)%s;" % (generics, opt, t, where)
+        own = {p: (0 if not own_bounds[p] else own_bounds[p].count("+") + 1) for p in declared}
+        return trait, src, declared, sorted(planted), flags, own, trait
     if trait == "FromMeta" and rng.random() < 0.5:
         vs = []
         for vn in rng.sample(["First", "Second", "Third", "Fourth"], rng.randint(1, 4)):
@@ -212,7 +222,8 @@ def gen_bound_decl(rng):
                 body = ""
             elif style == "newtype":
                 g = Gen(rng, declared, [], False)
-                body = "(%s)" % g.ty(rng.choice([0, 1, 2]))
+                # (`skip` on the field of a newtype variant does not stop it from being parsed)
+                body = "(%s%s)" % (rng.choice(["", "", "", "#[darling(skip)] "]), g.ty(rng.choice([0, 1, 2])))
                 planted.update(g.used_tp)
                 flags.append(False)
             else:
@@ -231,7 +242,7 @@ def gen_bound_decl(rng):
         attrs = "#[darling(attributes(a))] " if trait != "FromMeta" else ""
         src = "%sstruct R%s%s { %s }" % (attrs, generics, where, ", ".join(field(n, af) for n in names))
     own = {p: (0 if not own_bounds[p] else own_bounds[p].count("+") + 1) for p in declared}
-    return trait, src, declared, sorted(planted), flags, own
+    return trait, src, declared, sorted(planted), flags, own, "FromMeta"
 
 
 def bounds_part(R, prop, binary, tier):
@@ -239,8 +250,9 @@ def bounds_part(R, prop, binary, tier):
     n = 700 if tier == "quick" else 12000
     cases = []
     for i in range(n):
-        trait, src, declared, planted, flags, own = gen_bound_decl(R.rng)
-        cases.append({"id": i, "op": "derive", "trait": trait, "src": src, "declared": declared, "planted": planted, "flags": flags, "own": own})
+        trait, src, declared, planted, flags, own, conv = gen_bound_decl(R.rng)
+        cases.append({"id": i, "op": "derive", "trait": trait, "src": src, "declared": declared, "planted": planted, "flags": flags, "own": own,
+                      "conv": conv})
     results = vlib.run_harness(binary, cases)
     terms, keep, rejected = [], [], 0
     for c in cases:
@@ -260,11 +272,17 @@ def bounds_part(R, prop, binary, tier):
             continue
         nodes = [f["ty"] for f, sk in zip(flds, c["flags"]) if not sk]
         im = r["impls"][0]
-        observed = sorted(p for p, bs in im["param_bounds"] if any("darling :: FromMeta" in b for b in bs))
-        # the receiver's own bounds and where-clause are repeated unchanged
+        # the conversion trait: the trait the parsed fields are converted with (FromMeta; for a newtype, the derived trait itself)
+        conv = "darling :: %s" % c["conv"]
+        observed = sorted(p for p, bs in im["param_bounds"] if any(b.replace(":: darling", "darling").strip() == conv for b in bs))
+        # no other conversion-trait bound, and the receiver's own bounds and where-clause are repeated unchanged
         for p, bs in im["param_bounds"]:
-            rest = [b for b in bs if "darling :: FromMeta" not in b]
-            if p in c["own"] and len(rest) != c["own"][p]:
+            rest = [b for b in bs if b.replace(":: darling", "darling").strip() != conv]
+            stray = [b for b in rest if "darling ::" in b]
+            if stray:
+                R.violation("header", "impl header bounds %s by %s although its field is converted with %s: derive(%s) on `%s`" % (
+                    p, stray, c["conv"], c["trait"], c["src"]), {"case": c, "observation": im, "failed": "impl header comparison"})
+            if p in c["own"] and not stray and len(rest) != c["own"][p]:
                 R.violation("header", "impl header changed the receiver's own bounds on %s: %s (the declaration has %d)" % (p, rest, c["own"][p]),
                             {"case": c, "observation": im, "failed": "impl header comparison"})
         if (im.get("where") or "").replace(" ", "") != (r["echo"].get("where_toks") or "").replace(" ", ""):
